@@ -13,7 +13,7 @@ TRUSTED = ["the factorisation parse = finish . parseCore . strip of the Lean par
            "that re-laid-out texts scan to the same (class, spelling) sequence is checked per case, not proved (C09 round-trip theorem pending)"]
 ASSUMPTIONS = []
 
-STYLES = ["line", "single", "tight", "indent", "markers"]
+STYLES = ["line", "single", "tight", "indent", "markers", "samemarker"]
 
 
 def variants_obs(args):
@@ -46,7 +46,7 @@ def run(ctx):
     texts = [t for t in progs.pool(ctx, scale=0.5) if len(t) < 5000]
     rng = ctx.rng("seeds")
     args = [(t, rng.randrange(1 << 30)) for t in texts]
-    ctx.rule(progs.RULE + " x 5 re-layouts each (one token per line, single line, no blank wherever adjacency is allowed, random blanks/tabs/newlines, linemarkers changing line and file between arbitrary tokens); AST dump without coordinates and generated text must be identical; redundant-parenthesis variants are covered by C02's three parenthesisations against one expected AST")
+    ctx.rule(progs.RULE + " x 6 re-layouts each (one token per line, single line, no blank wherever adjacency is allowed, random blanks/tabs/newlines, linemarkers changing line and file between arbitrary tokens, the same linemarker before every token so that all tokens share one coordinate); AST dump without coordinates and generated text must be identical; redundant-parenthesis variants are covered by C02's three parenthesisations against one expected AST")
     res = pmap(variants_obs, args)
     vtexts = []
     keys = set()
